@@ -1,8 +1,9 @@
-"""C13 — decided by the shared IRC-layer engine (checks/irc_common.py)."""
-from checks import irc_common
+"""C13 — decided by the shared IRC-layer engine (checks/irc_common.py) on the bare state machine and by the
+HTTP-level stage (checks/irc_http.py) on a complete single-node network: the privilege predicates evaluated on entries as the real HTTP API turns requests into them."""
+from checks import irc_http
 
 LEVEL = "model_checking"
 
 
 def run(ctx):
-    irc_common.report(ctx, "C13")
+    irc_http.run_check(ctx, "C13")
